@@ -5,6 +5,7 @@ From ZV.C18 Require Import ModelFiber ProofsFiber ProofsFiberReduce.
 From ZV.C18 Require Import ModelPipe ProofsPipe ProofsPipeStream.
 From ZV.C18 Require Import ModelExec ProofsExec ProofsExec2.
 From ZV.C18 Require Import ModelGlobalPar ProofsGlobalPar.
+From ZV.C18 Require Import ModelYield ProofsYield ProofsBuffered.
 (* the dispatcher the harness-generated case files import: listed here so that building this file builds it *)
 From ZV.C18 Require ModelCases.
 From Coq Require Import Permutation.
@@ -695,3 +696,109 @@ Check global_reduce_error_surfaces :
     0 < ncpu -> In x xs -> (forall a, op a x = None) ->
     forall r, g_reduce_result op ident ncpu xs (pool_run (g_reduce_jobs op ident ncpu xs) maxf steps) = Some r -> r = None.
 Print Assumptions global_reduce_error_surfaces.
+
+(* the yielding loops of fiber_yield.rs as written (run_with_yield, process_vec_yielding, YieldingIterator::for_each / collect), for every
+   function, input, yield interval (0 included) and initial budget: the result is the function applied in input order (Err as soon as an
+   item fails), the function is called exactly on the items up to and including the first failing one, in order, each once *)
+Theorem yield_loops_are_map :
+  forall (T R : Type) (f : T -> option R) (init interval : N) (xs : list T),
+    (fst (fst (yi_for_each init interval f xs)) = map_opt f xs /\
+     calls (snd (yi_for_each init interval f xs)) = upto_fail f xs) /\
+    (fst (fst (process_vec_yielding init interval f xs)) = map_opt f xs /\
+     calls (snd (process_vec_yielding init interval f xs)) = upto_fail f xs) /\
+    (fst (fst (yi_collect init interval xs)) = Some xs /\ calls (snd (yi_collect init interval xs)) = xs) /\
+    (forall (h : N -> option R) (n : N),
+       let idx := map N.of_nat (seq 0 (N.to_nat n)) in
+       fst (fst (run_with_yield init n interval h)) = map_opt h idx /\
+       calls (snd (run_with_yield init n interval h)) = upto_fail h idx) /\
+    (forall g : T -> R, (forall x, In x xs -> f x = Some (g x)) -> map_opt f xs = Some (map g xs)) /\
+    (forall x, In x xs -> f x = None -> map_opt f xs = None).
+Proof. exact yield_loops_are_map_proof. Qed.
+Check yield_loops_are_map :
+  forall (T R : Type) (f : T -> option R) (init interval : N) (xs : list T),
+    (fst (fst (yi_for_each init interval f xs)) = map_opt f xs /\
+     calls (snd (yi_for_each init interval f xs)) = upto_fail f xs) /\
+    (fst (fst (process_vec_yielding init interval f xs)) = map_opt f xs /\
+     calls (snd (process_vec_yielding init interval f xs)) = upto_fail f xs) /\
+    (fst (fst (yi_collect init interval xs)) = Some xs /\ calls (snd (yi_collect init interval xs)) = xs) /\
+    (forall (h : N -> option R) (n : N),
+       let idx := map N.of_nat (seq 0 (N.to_nat n)) in
+       fst (fst (run_with_yield init n interval h)) = map_opt h idx /\
+       calls (snd (run_with_yield init n interval h)) = upto_fail h idx) /\
+    (forall g : T -> R, (forall x, In x xs -> f x = Some (g x)) -> map_opt f xs = Some (map g xs)) /\
+    (forall x, In x xs -> f x = None -> map_opt f xs = None).
+Print Assumptions yield_loops_are_map.
+
+(* every suspension of these loops is one `tokio::task::yield_now().await` that is counted once (total_yields = number of
+   suspensions in the trace: a loop over n items is suspended finitely often and always gets to its next item), and the u8 yield budget
+   never leaves [0, initial_budget] (no underflow of `current_budget - 1`) *)
+Theorem yield_points_return :
+  forall (T R : Type) (f : T -> option R) (init interval : N) (xs : list T),
+    (let '(_, p, tr) := yi_for_each init interval f xs in fy_total (yp_fy p) = yields tr /\ fy_budget (yp_fy p) <= init) /\
+    (let '(_, (_, p), tr) := process_vec_yielding init interval f xs in fy_total (yp_fy p) = yields tr /\ fy_budget (yp_fy p) <= init) /\
+    (let '(_, (_, p), tr) := yi_collect init interval xs in fy_total (yp_fy p) = yields tr /\ fy_budget (yp_fy p) <= init) /\
+    (forall (h : N -> option R) (n : N),
+       let '(_, p, tr) := run_with_yield init n interval h in fy_total (yp_fy p) = yields tr /\ fy_budget (yp_fy p) <= init).
+Proof. exact yield_points_return_proof. Qed.
+Check yield_points_return :
+  forall (T R : Type) (f : T -> option R) (init interval : N) (xs : list T),
+    (let '(_, p, tr) := yi_for_each init interval f xs in fy_total (yp_fy p) = yields tr /\ fy_budget (yp_fy p) <= init) /\
+    (let '(_, (_, p), tr) := process_vec_yielding init interval f xs in fy_total (yp_fy p) = yields tr /\ fy_budget (yp_fy p) <= init) /\
+    (let '(_, (_, p), tr) := yi_collect init interval xs in fy_total (yp_fy p) = yields tr /\ fy_budget (yp_fy p) <= init) /\
+    (forall (h : N -> option R) (n : N),
+       let '(_, p, tr) := run_with_yield init n interval h in fy_total (yp_fy p) = yields tr /\ fy_budget (yp_fy p) <= init).
+Print Assumptions yield_points_return.
+
+(* FiberIoUtils::batch_process: the chunks handed to the processor concatenate to the input (none empty, none longer than
+   max(1, batch_size)), the result is the concatenation of the processor's results in chunk order, the processor is not called after a
+   failing chunk, and for an item-wise processor the result is the item function applied in input order *)
+Theorem batch_process_is_concat :
+  forall (T R : Type) (bs : N) (proc : list T -> option (list R)) (xs : list T),
+    concat (bp_chunks bs xs) = xs /\
+    Forall (fun c => c <> [] /\ nlen c <= ival bs) (bp_chunks bs xs) /\
+    fst (batch_process bs proc xs) =
+      match map_opt proc (bp_chunks bs xs) with Some parts => Some (concat parts) | None => None end /\
+    calls (snd (batch_process bs proc xs)) = upto_fail proc (bp_chunks bs xs) /\
+    (forall g : T -> option R, (forall c, proc c = map_opt g c) -> fst (batch_process bs proc xs) = map_opt g xs).
+Proof. exact batch_process_is_concat_proof. Qed.
+Check batch_process_is_concat :
+  forall (T R : Type) (bs : N) (proc : list T -> option (list R)) (xs : list T),
+    concat (bp_chunks bs xs) = xs /\
+    Forall (fun c => c <> [] /\ nlen c <= ival bs) (bp_chunks bs xs) /\
+    fst (batch_process bs proc xs) =
+      match map_opt proc (bp_chunks bs xs) with Some parts => Some (concat parts) | None => None end /\
+    calls (snd (batch_process bs proc xs)) = upto_fail proc (bp_chunks bs xs) /\
+    (forall g : T -> option R, (forall c, proc c = map_opt g c) -> fst (batch_process bs proc xs) = map_opt g xs).
+Print Assumptions batch_process_is_concat.
+
+(* `buffered(max_concurrent)` of concurrent_with_yield / process_files_parallel, every schedule of start / completion / hand-over steps:
+   results leave the window in input order whatever the completion order, every operation is started at most once, at most
+   max_concurrent operations hold a slot; the call returns map-in-input-order (Err if some operation fails); an unfinished state is never stuck *)
+Theorem buffered_order :
+  forall (n maxc : nat) (sch : list bstep),
+    let b := b_run n maxc b_init sch in
+    b_out b = seq 0 (length (b_out b)) /\
+    map fst (b_win b) = seq (length (b_out b)) (length (b_win b)) /\
+    (b_next b = length (b_out b) + length (b_win b))%nat /\ (b_next b <= n)%nat /\
+    (length (b_win b) <= maxc)%nat /\
+    (forall (R : Type) (res : nat -> option R) r, buffered_result res n b = Some r -> r = map_opt res (seq 0 n)) /\
+    (forall (R : Type) (res : nat -> option R) (g : nat -> R) r,
+        buffered_result res n b = Some r -> (forall i, (i < n)%nat -> res i = Some (g i)) -> r = Some (map g (seq 0 n))) /\
+    (forall (R : Type) (res : nat -> option R) i r,
+        buffered_result res n b = Some r -> (i < n)%nat -> res i = None -> r = None) /\
+    ((1 <= maxc)%nat -> b_finished n b = false -> exists s, b_step n maxc b s <> b).
+Proof. exact buffered_order_proof. Qed.
+Check buffered_order :
+  forall (n maxc : nat) (sch : list bstep),
+    let b := b_run n maxc b_init sch in
+    b_out b = seq 0 (length (b_out b)) /\
+    map fst (b_win b) = seq (length (b_out b)) (length (b_win b)) /\
+    (b_next b = length (b_out b) + length (b_win b))%nat /\ (b_next b <= n)%nat /\
+    (length (b_win b) <= maxc)%nat /\
+    (forall (R : Type) (res : nat -> option R) r, buffered_result res n b = Some r -> r = map_opt res (seq 0 n)) /\
+    (forall (R : Type) (res : nat -> option R) (g : nat -> R) r,
+        buffered_result res n b = Some r -> (forall i, (i < n)%nat -> res i = Some (g i)) -> r = Some (map g (seq 0 n))) /\
+    (forall (R : Type) (res : nat -> option R) i r,
+        buffered_result res n b = Some r -> (i < n)%nat -> res i = None -> r = None) /\
+    ((1 <= maxc)%nat -> b_finished n b = false -> exists s, b_step n maxc b s <> b).
+Print Assumptions buffered_order.
